@@ -44,12 +44,12 @@ import (
 // report). The schedule is not part of it: it cannot be recorded or replayed.
 type RaceScenario struct {
 	Seed      int64  `json:"seed"`
-	Rounds    int    `json:"rounds"`            // rounds the run was asked for
-	Round     int    `json:"round"`             // round this case is / the report appeared after
-	Targets   int    `json:"targets"`           // targets of that round
+	Rounds    int    `json:"rounds"`               // rounds the run was asked for
+	Round     int    `json:"round"`                // round this case is / the report appeared after
+	Targets   int    `json:"targets"`              // targets of that round
 	RawOrigin bool   `json:"raw_origin,omitempty"` // notifications keep an empty origin (not the collector's closure)
-	Options   string `json:"options,omitempty"` // cache options of that round (derived from seed and round; informational)
-	Report    string `json:"report,omitempty"`  // race detector report, verbatim
+	Options   string `json:"options,omitempty"`    // cache options of that round (derived from seed and round; informational)
+	Report    string `json:"report,omitempty"`     // race detector report, verbatim
 }
 
 // ---- workload ---------------------------------------------------------------------------
@@ -76,6 +76,7 @@ type raceRound struct {
 	eventDriven bool
 	precision   time.Duration
 	streams     [][]rcOp
+	flapping    bool // every stream is a target whose connection breaks after a few messages, again and again
 	minRefresh  int
 }
 
@@ -178,9 +179,12 @@ func rcGenNoti(r *rand.Rand) *rcNoti {
 // the order the manager produces it: per connection episode Connect (on the
 // first message), updates with a Sync somewhere, then - when the stream
 // breaks - Reset followed by ConnectError; the last episode may stay up.
-func rcGenStream(r *rand.Rand) []rcOp {
+func rcGenStream(r *rand.Rand, flapping bool) []rcOp {
 	var ops []rcOp
-	episodes := 1 + r.Intn(3)
+	episodes := 1 + r.Intn(4)
+	if flapping {
+		episodes = 6 + r.Intn(7)
+	}
 	for e := 0; e < episodes; e++ {
 		if r.Intn(8) == 0 {
 			// a connection attempt that fails before any message
@@ -190,8 +194,11 @@ func rcGenStream(r *rand.Rand) []rcOp {
 			ops = append(ops, rcOp{kind: "connect"})
 		}
 		k := 4 + r.Intn(20)
+		if flapping || r.Intn(3) == 0 {
+			k = 1 + r.Intn(3) // a flapping connection: it breaks after a few messages
+		}
 		syncAt := -1
-		if r.Intn(5) > 0 {
+		if k > 0 && r.Intn(5) > 0 {
 			syncAt = r.Intn(k)
 		}
 		for i := 0; i < k; i++ {
@@ -202,7 +209,7 @@ func rcGenStream(r *rand.Rand) []rcOp {
 		}
 		if e < episodes-1 || r.Intn(2) == 0 {
 			ops = append(ops, rcOp{kind: "reset"})
-			if r.Intn(3) > 0 {
+			if flapping || r.Intn(3) > 0 {
 				ops = append(ops, rcOp{kind: "connecterr"})
 			}
 		}
@@ -226,10 +233,11 @@ func genRaceRound(seed int64, rounds, round int, rawOrigin bool) *raceRound {
 		rr.precision = time.Microsecond
 	}
 	rr.minRefresh = 2 + r.Intn(3)
+	rr.flapping = r.Intn(4) == 0
 	for i := 0; i < rr.sc.Targets; i++ {
-		rr.streams = append(rr.streams, rcGenStream(r))
+		rr.streams = append(rr.streams, rcGenStream(r, rr.flapping))
 	}
-	rr.sc.Options = fmt.Sprintf("latency_windows=%v avg_precision=%v future_threshold=%v event_driven=%v", rr.latWindows, rr.precision, rr.threshold, rr.eventDriven)
+	rr.sc.Options = fmt.Sprintf("latency_windows=%v avg_precision=%v future_threshold=%v event_driven=%v flapping=%v", rr.latWindows, rr.precision, rr.threshold, rr.eventDriven, rr.flapping)
 	return rr
 }
 
@@ -285,6 +293,8 @@ type raceRoundStats struct {
 	future, otherErr       int64
 	updatesAfterReset      bool
 	leaves                 int
+	endSynced              []string // targets whose stream's last Sync was not followed by a Reset
+	syncLost               []string // ... and whose sync metadata is nevertheless false at the quiescent end
 }
 
 func (s *raceRoundStats) nontrivial() bool {
@@ -309,10 +319,13 @@ func (s *raceRoundStats) labels(rr *raceRound) []string {
 	add(s.future > 0, "future-rejected")
 	add(s.otherErr > 0, "other-error")
 	add(s.leaves > 0, "leaves-left-at-quiescence")
+	add(len(s.endSynced) > 0, "stream-ended-synced")
+	add(len(s.syncLost) > 0, "OBSERVATION(not-C15):sync-false-at-quiescence-after-Sync")
 	add(rr.latWindows, "opt-latency-windows")
 	add(rr.threshold > 0, "opt-future-threshold")
 	add(!rr.eventDriven, "opt-event-driven-off")
 	add(rr.sc.RawOrigin, "raw-origin")
+	add(rr.flapping, "flapping-connections")
 	return l
 }
 
@@ -370,8 +383,8 @@ func (rr *raceRound) run() (st *raceRoundStats, err error) {
 		go func(name string, ops []rcOp) {
 			defer wg.Done()
 			defer active.Add(-1)
-			var accepted, stale, future, other, resets, syncs int64
-			sawConnErr, pair, didReset, updAfterReset := false, false, false, false
+			var accepted, stale, future, other, resets, syncs, connErrs int64
+			sawConnErr, pair, didReset, updAfterReset, endsSynced := false, false, false, false, false
 			<-start
 			last := time.Now().UnixNano()
 			for _, op := range ops {
@@ -382,14 +395,18 @@ func (rr *raceRound) run() (st *raceRoundStats, err error) {
 						pair = true
 					}
 				case "connecterr":
-					c.ConnectError(name, errors.New("stream broke"))
+					// the manager reports a different error text almost every time
+					connErrs++
+					c.ConnectError(name, fmt.Errorf("stream broke (%d)", connErrs%3))
 					sawConnErr = true
 				case "sync":
 					c.Sync(name)
 					syncs++
+					endsSynced = true
 				case "reset":
 					c.Reset(name)
 					resets++
+					endsSynced = false
 					resetsDone.Add(1)
 					if !didReset {
 						didReset = true
@@ -434,6 +451,9 @@ func (rr *raceRound) run() (st *raceRoundStats, err error) {
 			st.syncs += syncs
 			st.connErrThenConnect = st.connErrThenConnect || pair
 			st.updatesAfterReset = st.updatesAfterReset || updAfterReset
+			if endsSynced {
+				st.endSynced = append(st.endSynced, name)
+			}
 			mu.Unlock()
 		}(targetName(i), rr.streams[i])
 	}
@@ -519,6 +539,13 @@ func (rr *raceRound) run() (st *raceRoundStats, err error) {
 		if ac-dc != lc {
 			return st, fmt.Errorf("at the quiescent end %s reports targetLeavesAdded-targetLeavesDeleted=%d-%d but targetLeaves=%d", name, ac, dc, lc)
 		}
+		for _, es := range st.endSynced {
+			if es == name {
+				if v, _ := md.GetBool(metadata.Sync); !v {
+					st.syncLost = append(st.syncLost, name)
+				}
+			}
+		}
 		if treeLeafCount != nil && *treeLeafCount != lc {
 			return st, fmt.Errorf("at the quiescent end, after a final UpdateMetadata, the leaf meta/targetLeaves of %s holds %d but the counter is %d", name, *treeLeafCount, lc)
 		}
@@ -555,34 +582,38 @@ func raceClass(a, b string) string {
 // access stacks. rest is the unterminated tail (a report still being written).
 func parseRaceReports(text string) (reports []raceReport, rest string) {
 	const delim = "=================="
-	lines := strings.SplitAfter(text, "\n")
 	var cur []string
 	in := false
-	consumed := 0
-	pos := 0
-	for _, ln := range lines {
+	pos, openPos := 0, 0
+	for _, ln := range strings.SplitAfter(text, "\n") {
+		if !strings.HasSuffix(ln, "\n") {
+			// an unfinished last line: keep it (and the report it belongs to) for later
+			if !in {
+				openPos = pos
+			}
+			return reports, text[openPos:]
+		}
+		lineStart := pos
 		pos += len(ln)
-		if strings.TrimRight(ln, "\r\n") == delim && strings.HasSuffix(ln, "\n") {
+		if strings.TrimRight(ln, "\r\n") == delim {
 			if in {
 				if rep, ok := classifyRaceReport(cur); ok {
 					reports = append(reports, rep)
 				}
 				cur, in = nil, false
-				consumed = pos
 			} else {
-				in = true
-				cur = nil
-				consumed = pos - len(ln)
+				in, cur, openPos = true, nil, lineStart
 			}
 			continue
 		}
 		if in {
 			cur = append(cur, ln)
-		} else {
-			consumed = pos
 		}
 	}
-	return reports, text[consumed:]
+	if in {
+		return reports, text[openPos:]
+	}
+	return reports, ""
 }
 
 func classifyRaceReport(lines []string) (raceReport, bool) {
